@@ -15,7 +15,7 @@ from ..common import Outcome, subseed
 LEVEL = "fault_enumeration"
 RULE = ("one case = one small problem (qp / rosenbrock / styblinski_tang / rastrigin, boxes, n 2..4, maxiter<=5) in gradient mode callable / "
         "None / 2-point with all seven user callables present (objective, gradient, callback, update function, gradient scaler, callable "
-        "ftarget, callable gtol). Every call index of every callable is one injection point; the injected exception type rotates over a "
+        "ftarget, callable gtol), followed by a restart from the returned result with two more iterations. Every call index of every callable, in the first run and in the restarted run, is one injection point; the injected exception type rotates over a "
         "10-type alphabet (+ StopIteration, judged under its own mechanism). Oracle: the exception reaching the caller *is* the injected "
         "object, no result is returned, and a clean re-run afterwards has the digest computed in a fresh interpreter. Non-trivial = injection "
         "at call index >= 2 (inside the iteration, not at set-up); distinct = distinct (problem, kind, index)")
@@ -38,7 +38,7 @@ def alphabet():
 
 def floors(tier):
     return {"injections": 1500, "injections_inside_iteration": 800, "clean_reruns_compared": 1500, "problems": 40,
-            "kind:f": 300, "kind:g": 100, "kind:cb": 50, "kind:ufd": 50, "kind:scaler": 20, "kind:ftarget": 20, "kind:gtol": 20,
+            "injections_in_restarted_runs": 200, "kind:f": 300, "kind:g": 100, "kind:cb": 50, "kind:ufd": 50, "kind:scaler": 20, "kind:ftarget": 20, "kind:gtol": 20,
             "__nontrivial__": 800}
 
 
@@ -127,6 +127,42 @@ def run(spec):
                 break
         if len(out.violations) >= 4:
             break
+    # phase 2: the same enumeration on a restart from the returned result (history restoration, early-return path)
+    if len(out.violations) < 4 and base.result is not None:
+        ck = base.result
+        rcfg = dict(cfg, maxiter=int(ck.nit) + 2)
+        rwant = fresh.fresh_digests([{"problem": spec["problem"], "cfg": cfg, "restart": {"maxiter": int(ck.nit) + 2}}])[0]
+
+        def restart(hooks=None):
+            return probes.run_min(P, rcfg, hooks=hooks, checkpoint=ck, x0=np.array(ck.x, dtype=float, copy=True))
+
+        rb = restart()
+        if rb.exc is None and not rwant.startswith("raised") and fresh.digest_state(rb.snap) == rwant:
+            rcounts = {"f": rb.nf, "g": rb.ng, "cb": len(rb.cb), "ufd": len(rb.ufd), "scaler": len(rb.scaler_calls),
+                       "ftarget": rb.ftarget_calls, "gtol": rb.gtol_calls}
+            for kind in KINDS:
+                for index in range(rcounts[kind]):
+                    etype = types[pos % len(types)]
+                    pos += 1
+                    exc = etype(f"injected into {kind} call #{index} of the restarted run")
+                    tags = dict(kind=kind, exc=etype.__name__, mode=str(spec["mode"]), fd=spec["mode"] != "callable", restart=True)
+                    tr = restart(inject_hooks(kind, index, exc))
+                    out.count("injections")
+                    out.count("injections_in_restarted_runs")
+                    out.count("kind:" + kind)
+                    judge_injection(out, tr, exc, kind, index, f"{name} restart from nit={ck.nit}", tags)
+                    again = restart()
+                    out.count("clean_reruns_compared")
+                    if again.exc is not None or fresh.digest_state(again.snap) != rwant:
+                        out.violate("state_left_behind", f"{name}: after {etype.__name__} in {kind} call #{index} of a restarted run an identical "
+                                    f"fault-free restart differs from the fresh-process result", **tags)
+                    keys.add(f"{P.spec['family']}/{P.spec['seed']}/{spec['mode']}/restart/{kind}/{index}")
+                    if len(out.violations) >= 4:
+                        break
+                if len(out.violations) >= 4:
+                    break
+        elif rb.exc is None and not rwant.startswith("raised"):
+            out.violate("baseline_differs_from_fresh_process", f"{name}: in-process fault-free restart differs from the fresh-interpreter restart", kind="baseline", exc="none")
     if spec["mode"] != "callable" and counts["f"] > 1 and len(out.violations) < 4:
         # dedicated probe: StopIteration raised on a finite-difference stencil point (objective call #1)
         exc = StopIteration("injected into f call #1 (stencil)")
